@@ -119,11 +119,12 @@ impl<'a> EM<'a> {
         };
         self.set(if assign { "e_sub_assign_unit" } else { "e_sub_unit" }, format!("\"u\":{}", unit_idx(u)), r, true);
     }
-    /// Epoch + f64 seconds where the float is an exact integer below 2^53
+    /// Epoch + f64 seconds where the float is an exact integer (of any magnitude below 2^53)
     pub fn add_f64(&mut self, secs: i64) {
         let a = self.e;
-        let r = catch(|| a + (secs as f64));
-        self.set("e_add_f64", format!("\"secs\":{}", jbig(secs as i128)), r, secs != 0);
+        let x = secs as f64;
+        let r = catch(|| a + x);
+        self.set("e_add_f64", format!("\"x\":{}", jf64(x)), r, secs != 0);
     }
     pub fn sub_e(&mut self, f: Epoch) {
         let a = self.e;
@@ -485,7 +486,13 @@ pub fn c04(rec: &mut Rec, lm: &Landmarks, rng: &mut Rng, thorough: bool) {
                 m.sub_unit(u, rng.chance(1, 2));
             }
             2 => {
-                let s = if rng.chance(1, 2) { rng.range_i64(-100_000, 100_000) } else { rng.range_i64(-9_000_000, 9_000_000) }; // secs * 1e9 stays below 2^53: exact in f64
+                // an exact integer number of seconds: small, or of any magnitude an f64 holds exactly
+                let s = match rng.below(4) {
+                    0 => rng.range_i64(-100_000, 100_000),
+                    1 => rng.range_i64(-9_000_000, 9_000_000),
+                    2 => *rng.pick(&[10_000_000_000i64, -15_000_000_000, 9_223_372_036, 9_223_372_037, -9_223_372_037, 1 << 40, -(1 << 45), 31_557_600_000, 315_576_000_000]),
+                    _ => rng.log_i128(53).clamp(-(1i128 << 53), 1i128 << 53) as i64,
+                };
                 m.add_f64(s);
                 m.sub_e(e0);
             }
